@@ -563,7 +563,10 @@ def rule_delegation(ctx):
                     inits_ = [st_["init"]["expr"] for st_, _ in A.find(fn.block, "Stmt::Local") if st_.get("init") and A.pat_idents(st_["pat"]) == [A.path_str(wexpr)]]
                     wexpr = A.peel(inits_[0]) if len(inits_) == 1 else wexpr
                 wtxt = T.ir_text(T.to_ir(wexpr["mac"]["tokens"])).replace(" ", "") if A.kind(wexpr) == "Expr::Macro" and A.path_last(wexpr["mac"]["path"]) == "quote" else None
-                if a_[0] == "&input.generics" and a_[1] == "&[field]" and a_[2] == "&index_type" and a_[4] == "true" and wtxt is not None and A.TTxt(wtxt).same("where#field_type:#trait_path_with_params"):
+                # the new parameter is the identifier `__IdxT`, whatever the local is called
+                idx_nm = a_[2].lstrip("&")
+                idx_ok = any(d_["pattern"] == "__IdxT" and not d_["args"] for st_, _ in A.find(fn.block, "Stmt::Local") if st_.get("init") and A.pat_idents(st_["pat"]) == [idx_nm] for d_ in [A.ident_ctor(st_["init"]["expr"])] if d_)
+                if a_[0] == "&input.generics" and a_[1] == "&[field]" and idx_ok and a_[4] == "true" and wtxt is not None and A.TTxt(wtxt).same("where#field_type:#trait_path_with_params"):
                     b_ok = True
         need(ctx, f"{meth}:bound", "where#field_type:#trait_path_with_params" in tt and b_ok, w, f"{meth}: the index type parameter / `FieldTy: Index<__IdxT>` bound changed")
         if meth == "index":
